@@ -124,6 +124,15 @@ def main():
         if not [v for v in new if v["key"] == "lean-obligation"]:
             new.append({"key": "lean-obligation", "what": "proof obligation / model build no longer checks: " + ctx.lean_log[-300:].replace("\n", " | "),
                         "replay": {"kind": "obligation", "log": ctx.lean_log[-4000:], "theorems": ctx.obligations}, "no_input": True})
+    # a broken proof/correspondence is reported with "no-failing-input-found" only when the search produced no concrete
+    # failing input; when it did, the concrete input is the report and the broken obligation is recorded beside it.
+    concrete = [v for v in new if not v["no_input"]]
+    if concrete:
+        for v in [v for v in new if v["no_input"] and v["key"] != "check-crashed"]:
+            ctx.notes.append("also no longer checks: %s (%s)" % (v["key"], v["what"][:200]))
+            concrete[0]["replay"] = {"failing_input": concrete[0]["replay"], "broken_obligation": {"key": v["key"], "what": v["what"], "detail": v["replay"]}} \
+                if "failing_input" not in (concrete[0]["replay"] if isinstance(concrete[0]["replay"], dict) else {}) else concrete[0]["replay"]
+        new = [v for v in new if not v["no_input"] or v["key"] == "check-crashed"]
     level = getattr(mod, "LEVEL", "other")
     cov = ctx.coverage
     from collections import Counter
